@@ -490,8 +490,8 @@ func (sb *stateBackend) storedLocked() map[string]interface{} {
 
 type caseDef struct {
 	Idx     int       `json:"case_index"`
-	Backend string    `json:"backend"` // mem | mem-bytes | state
-	Mode    string    `json:"mode"`    // single | multi
+	Backend string    `json:"backend"`                             // mem | mem-bytes | state
+	Mode    string    `json:"mode"`                                // single | multi
 	Helpers bool      `json:"via_registrystate_helpers,omitempty"` // state backend: requests go through registrystate.SetViaViewInTx/GetViaViewInTx (no spy)
 	Regs    []*regDef `json:"registries"`
 	Ops     []opDef   `json:"ops"`
@@ -606,11 +606,12 @@ type accReq struct {
 }
 
 type pendRAW struct {
-	op      opDef
-	contain bool
-	paths   [][]string
-	widx    int // len(writes) right after the request
-	ridx    int // len(reqs) right after the request
+	op        opDef
+	contain   bool
+	reordered bool
+	paths     [][]string
+	widx      int // len(writes) right after the request
+	ridx      int // len(reqs) right after the request
 }
 
 type txState struct {
@@ -775,21 +776,23 @@ func (rn *runner) matching(reg int, request string) (all, readable, writeable []
 }
 
 // rawEligible: the read-after-write clause applies to (request, value).
-func (rn *runner) rawEligible(op opDef, log []spyEv) (ok, contain bool, paths [][]string) {
+func (rn *runner) rawEligible(op opDef, log []spyEv) (ok, contain, reordered bool, paths [][]string) {
 	all, _, _ := rn.matching(op.Reg, op.Req)
 	if len(all) == 0 || containsNil(op.Val) {
-		return false, false, nil
+		return false, false, false, nil
 	}
 	req := splitReq(op.Req)
 	n := len(req)
 	var patterns [][]string
 	for _, fr := range all {
 		if fr.Access != "read-write" {
-			return false, false, nil
+			return false, false, false, nil
 		}
+		var inReq, inSto []string
 		for _, s := range fr.Req[n:] {
 			if isPH(s) {
 				contain = true
+				inReq = append(inReq, s)
 			}
 		}
 		// the storage this rule maps the request to (unbound placeholders stay
@@ -800,11 +803,18 @@ func (rn *runner) rawEligible(op opDef, log []spyEv) (ok, contain bool, paths []
 			pat[i] = t
 			if b, ok := bind[t]; ok {
 				pat[i] = b
+			} else if isPH(t) {
+				inSto = append(inSto, t)
 			}
+		}
+		if strings.Join(inReq, ".") != strings.Join(inSto, ".") {
+			// the placeholders the request leaves open come in a different
+			// order in the rule's request and in its storage path
+			reordered = true
 		}
 		for _, other := range patterns {
 			if overlap(pat, other) {
-				return false, false, nil
+				return false, false, false, nil
 			}
 		}
 		patterns = append(patterns, pat)
@@ -816,19 +826,19 @@ func (rn *runner) rawEligible(op opDef, log []spyEv) (ok, contain bool, paths []
 	}
 	if len(paths) == 0 {
 		// without a spy (registrystate helpers) only the storage patterns are known
-		return rn.cd.Helpers, contain, patterns
+		return rn.cd.Helpers, contain, reordered, patterns
 	}
 	for i := range paths {
 		for j := i + 1; j < len(paths); j++ {
 			if overlap(paths[i], paths[j]) {
-				return false, false, nil
+				return false, false, false, nil
 			}
 		}
 	}
-	return true, contain, paths
+	return true, contain, reordered, paths
 }
 
-func (rn *runner) readBack(h *txHandle, op opDef, contain bool, where string) {
+func (rn *runner) readBack(h *txHandle, op opDef, contain, reordered bool, where string) {
 	var log []spyEv
 	got, err := rn.viewRead(h, op.Reg, op.Req, &log)
 	rn.checkAccess("get", op.Req, op.Reg, log, where)
@@ -848,7 +858,12 @@ func (rn *runner) readBack(h *txHandle, op opDef, contain bool, where string) {
 		if err != nil {
 			w["read_error"] = err.Error()
 		}
-		rn.fail("C30:read-after-write:"+where, w)
+		sig := "C30:read-after-write:" + where
+		if reordered {
+			w["where"] = where
+			sig = "C30:read-after-write:reordered-unbound-placeholders"
+		}
+		rn.fail(sig, w)
 	}
 }
 
@@ -943,11 +958,14 @@ func (rn *runner) doWrite(op opDef, ts *txState) {
 	if op.Kind != "set" {
 		return
 	}
-	if ok, contain, paths := rn.rawEligible(op, log); ok {
-		if !hadUnset {
-			rn.readBack(ts.h, op, contain, "in-transaction")
+	if ok, contain, reordered, paths := rn.rawEligible(op, log); ok {
+		if reordered {
+			rn.stats.inc("read_after_write_with_reordered_unbound_placeholders")
 		}
-		ts.pend = append(ts.pend, pendRAW{op: op, contain: contain, paths: paths, widx: len(ts.writes), ridx: len(ts.reqs)})
+		if !hadUnset {
+			rn.readBack(ts.h, op, contain, reordered, "in-transaction")
+		}
+		ts.pend = append(ts.pend, pendRAW{op: op, contain: contain, reordered: reordered, paths: paths, widx: len(ts.writes), ridx: len(ts.reqs)})
 	} else {
 		rn.stats.inc("read_after_write_not_applicable")
 	}
@@ -1011,7 +1029,7 @@ func (rn *runner) doCommit(ts *txState) {
 			continue
 		}
 		fresh := rn.newTxState(ts.reg)
-		rn.readBack(fresh.h, p.op, p.contain, "after-commit")
+		rn.readBack(fresh.h, p.op, p.contain, p.reordered, "after-commit")
 	}
 }
 
